@@ -136,3 +136,27 @@ def isolated(fn, *args, timeout=300):
     if kind == "err":
         raise IsolationError(val)
     return val
+
+
+class small_stack:
+    """Fault: the code inside runs with only `extra` more Python frames available (a deep
+    recursion overflows early, as it would for a much larger input).  restore() gives the
+    normal limit back early (used by harness code that is called from inside the window)."""
+
+    def __init__(self, extra):
+        self.extra = extra
+        self.normal = sys.getrecursionlimit()
+
+    def __enter__(self):
+        import inspect
+
+        depth = len(inspect.stack(0))
+        sys.setrecursionlimit(max(depth + self.extra, 30))
+        return self
+
+    def restore(self):
+        sys.setrecursionlimit(self.normal)
+
+    def __exit__(self, *a):
+        sys.setrecursionlimit(self.normal)
+        return False
